@@ -213,8 +213,12 @@ pub fn inter_lemma<const S: usize>(sh: &Shape, mode: TakeMode, k: usize) {
                 Ok(_) => assert!(false, "C03.intermediate_yields_fragmented_or_error"),
                 Err((e, consumed)) => {
                     assert!(*consumed == l.pkt_len, "C10.rejected_consumes_own_length");
-                    assert!(!fits, "C02.fitting_intermediate_is_accepted");
-                    assert!(d.memory.slots[k].is_none(), "C03.oversize_fragment_drops_context");
+                    // a fragment of a valid train (it fits, and the announced total length is not yet
+                    // exceeded) must be accepted; anything else may be rejected — but then the train is over
+                    let lab_len = if cg.reuse { 0 } else { label_len_of(&cg.label) };
+                    let within_total = p + m + 2 + lab_len <= cg.total_len as usize;
+                    assert!(!fits || !within_total, "C02.fitting_intermediate_is_accepted");
+                    assert!(d.memory.slots[k].is_none(), "C03.rejected_fragment_drops_context");
                     let outside = buf_in_error(e);
                     assert!(count_ptr(&d.memory, bg.ptr) + if outside == Some(bg.ptr) { 1 } else { 0 } == 1,
                             "C08.buffer_in_exactly_one_place");
@@ -440,8 +444,12 @@ pub fn first_lemma<const S: usize>(sh: &Shape, k: usize) {
         None => false,
     };
     // total length must leave room for more than this fragment (a sender's first fragment
-    // never carries the whole PDU): otherwise the packet is malformed
+    // never carries the whole PDU): otherwise the packet is malformed.  `tl_ok` is what the
+    // receiver must at least enforce; `tl_consistent` is what every sender-produced first
+    // fragment satisfies (total = 2 + written label + PDU length, PDU length > carried) and
+    // is the only case in which acceptance is REQUIRED.
     let tl_ok = total_len as usize > m;
+    let tl_consistent = total_len as usize > m + 2 + l.label_len;
     let has_buffer = g.slot[k].is_some() || g.nfree > 0;
     let prev = any_prev_for(&last);
     let r = d.decap(&buf[..len]);
@@ -489,9 +497,9 @@ pub fn first_lemma<const S: usize>(sh: &Shape, k: usize) {
         }
         Ok(_) => assert!(false, "C02.first_yields_fragmented_or_error"),
         Err((e, consumed)) => {
-            assert!(zero_label || !tl_ok || !has_buffer || m > Z || resolved.is_none() || matches!(e, DecapError::ErrorMemory(_)),
+            assert!(zero_label || !tl_consistent || !has_buffer || m > Z || resolved.is_none() || matches!(e, DecapError::ErrorMemory(_)),
                     "C02.storable_first_fragment_is_accepted");
-            if tl_ok {
+            if tl_consistent {
                 assert!(*consumed == l.pkt_len, "C10.rejected_consumes_own_length");
             } else {
                 assert!(*consumed == l.pkt_len || *consumed == len, "C05.consumed_le_buffer");
@@ -499,7 +507,7 @@ pub fn first_lemma<const S: usize>(sh: &Shape, k: usize) {
             assert!(label_memory_safe_after_reject(&after, &l, &buf), "C04.rejected_packet_does_not_keep_older_label");
             let outside = buf_in_error(e);
             assert!(count_bufs(&d.memory) + if outside.is_some() { 1 } else { 0 } == bufs_before, "C08.buffers_conserved");
-            if !zero_label && resolved.is_some() && tl_ok && !has_buffer {
+            if !zero_label && resolved.is_some() && tl_consistent && !has_buffer {
                 assert!(matches!(e, DecapError::ErrorMemory(DecapMemoryError::StorageUnderflow)), "C10.no_storage_error");
             }
             if zero_label || resolved.is_none() || !tl_ok {
@@ -509,7 +517,7 @@ pub fn first_lemma<const S: usize>(sh: &Shape, k: usize) {
             kani::cover!(zero_label, "rejected_zero_label");
             kani::cover!(!zero_label && resolved.is_none(), "rejected_unresolvable_reuse");
             kani::cover!(!zero_label && resolved.is_some() && !tl_ok, "rejected_total_length");
-            kani::cover!(!zero_label && resolved.is_some() && tl_ok && has_buffer && m > Z, "rejected_oversize");
+            kani::cover!(!zero_label && resolved.is_some() && tl_consistent && has_buffer && m > Z, "rejected_oversize");
             kani::cover!(!has_buffer, "rejected_no_storage");
         }
     }
